@@ -2,9 +2,55 @@ package main
 
 import (
 	"go/types"
+	"os"
 
 	"golang.org/x/tools/go/ssa"
 )
+
+// readsOnly: the body of f (a callee that is inlined at its call sites) has no effect on memory that
+// existed before the call: no stores except into its own non-escaping locals, no map updates, no
+// goroutines / channel operations / defers, and calls only of builtins, of callees whose contract or
+// allowlist entry says they are pure, or (two levels deep) of other read-only inlinable callees.
+func (vc *VC) readsOnly(f *ssa.Function, depth int) bool {
+	if depth > 2 || len(f.Blocks) == 0 || os.Getenv("GOVC_NO_READSONLY") != "" {
+		return false
+	}
+	for _, b := range f.Blocks {
+		for _, in := range b.Instrs {
+			switch x := in.(type) {
+			case *ssa.Store:
+				a, ok := x.Addr.(*ssa.Alloc)
+				if !ok || a.Heap {
+					if fa, isFA := x.Addr.(*ssa.FieldAddr); isFA {
+						if a2, ok2 := fa.X.(*ssa.Alloc); ok2 && !a2.Heap {
+							continue
+						}
+					}
+					return false
+				}
+			case *ssa.MapUpdate, *ssa.Go, *ssa.Send, *ssa.Select, *ssa.Defer, *ssa.RunDefers, *ssa.Panic:
+				return false
+			case ssa.CallInstruction:
+				cc := x.Common()
+				if bi, ok := cc.Value.(*ssa.Builtin); ok {
+					switch bi.Name() {
+					case "len", "cap", "min", "max":
+						continue
+					}
+					return false
+				}
+				if vc.callIsPure(cc) {
+					continue
+				}
+				if callee := cc.StaticCallee(); callee != nil && !cc.IsInvoke() && vc.canInline(callee) && vc.readsOnly(callee, depth+1) {
+					continue
+				}
+				return false
+			}
+		}
+	}
+	return true
+}
 
 // ---------------------------------------------------------------- private cells across loops
 //
@@ -49,6 +95,7 @@ func cellChangedBy(x ssa.Value, body map[*ssa.BasicBlock]bool, depth int, stores
 			continue
 		case *ssa.MakeClosure:
 			// the closure value must only be called
+			concurrent := false
 			if crefs := u.Referrers(); crefs != nil {
 				for _, cr := range *crefs {
 					switch cu := cr.(type) {
@@ -69,6 +116,20 @@ func cellChangedBy(x ssa.Value, body map[*ssa.BasicBlock]bool, depth int, stores
 							return true
 						}
 						continue
+					case *ssa.Go:
+						// `go func() {...}()`: the literal runs concurrently; it shares the cell only
+						// if it (or anything it hands the address to) can write it - checked below with
+						// every store in the literal counting, whenever it runs
+						if cu.Call.Value != ssa.Value(u) {
+							return true
+						}
+						for _, a := range cu.Call.Args {
+							if a == ssa.Value(u) {
+								return true
+							}
+						}
+						concurrent = true
+						continue
 					default:
 						return true
 					}
@@ -85,7 +146,7 @@ func cellChangedBy(x ssa.Value, body map[*ssa.BasicBlock]bool, depth int, stores
 					continue
 				}
 				// inside the closure any store counts (it may be called from the loop)
-				if cellChangedBy(fn.FreeVars[i], nil, depth+1, storesMatter) {
+				if cellChangedBy(fn.FreeVars[i], nil, depth+1, storesMatter || concurrent) {
 					return true
 				}
 			}
@@ -179,6 +240,9 @@ func (vc *VC) keepUnsharedCells(h *Heap, pre Heap, at ssa.Instruction) {
 // declared inside the loop body. go/ssa proves such an Alloc non-escaping (Heap == false), so each
 // iteration works on its own new object that nothing outlives: stores to it are not loop effects.
 func perIterationLocal(addr ssa.Value, li *loopInfo) bool {
+	if os.Getenv("GOVC_NO_PERITER") != "" {
+		return false
+	}
 	for d := 0; d < 6; d++ {
 		switch x := addr.(type) {
 		case *ssa.Alloc:
